@@ -305,3 +305,20 @@ Proof.
   destruct (group_blocks (iv_blocks iv) []) as [|g0 [|g1 t]]; try exact S.
   rewrite Hc in S. exact S.
 Qed.
+
+(* ---- prepare_for_rewriting around an empty rewrite: every interval of the module is split and joined again ---- *)
+Definition noop_rewrite nop align next (ivs : list ival) : list (result ival) :=
+  map (fun iv => join_byte_intervals nop align next (split_byte_interval iv)) ivs.
+
+Theorem noop_rewrite_is_identity nop align next ivs :
+  (forall iv, In iv ivs ->
+     Z.of_nat (length (iv_contents iv)) = iv_size iv /\ NoDup (map fst (iv_symex iv)) /\ Forall (fun m => NoDup (map fst m)) (iv_tabs iv) /\
+     wf_blocks iv /\ (forall b, In b (iv_blocks iv) -> holds iv align b)) ->
+  Forall2 (fun iv r => exists j, r = Ok j /\ same_ival j iv (iv_blocks iv)) ivs (noop_rewrite nop align next ivs).
+Proof.
+  induction ivs as [|iv t IH]; intros H; cbn [noop_rewrite map]; [constructor|].
+  constructor.
+  - destruct (H iv (or_introl eq_refl)) as (A & B & C & D & E).
+    destruct (join_split_is_identity nop align next iv A B C D E) as (r & Er & S). exists r. split; [exact Er|exact S].
+  - apply IH. intros iv' Hin. apply H. right. exact Hin.
+Qed.
